@@ -247,11 +247,12 @@ pub fn get_url_params(url: &Url) -> Result<LdapUrlParams<'_>> {
     };
     let scope = match query.next() {
         Some("") | None => Scope::Subtree,
-        Some(scope_str) => match scope_str {
+        // The scope words are ABNF literals (RFC 4516), hence case-insensitive.
+        Some(scope_str) => match scope_str.to_ascii_lowercase().as_str() {
             "base" => Scope::Base,
             "one" => Scope::OneLevel,
             "sub" => Scope::Subtree,
-            any => return Err(LdapError::InvalidScopeString(any.into())),
+            _ => return Err(LdapError::InvalidScopeString(scope_str.into())),
         },
     };
     let filter = match query.next() {
